@@ -23,6 +23,8 @@ def _h(txt):
 CID = "C03"
 VO = ["props/C03.vo"] + R.VO_MODEL
 S_ADDRAW, S_YEARDAY, S_NLYEARDAY = 27, 25, 26
+# relativedelta.py: keyword branch of __init__ incl. yearday table, _fix, __add__ on a date, __radd__/__rsub__, __neg__
+ANCHOR_RANGES = [(170, 229), (231, 262), (362, 408), (457, 473)]
 SPEC_N_LIMIT = 2000          # the counting spec walks 7*|n| days: only evaluated for |n| <= this
 
 
@@ -45,7 +47,7 @@ MATCHERS = {"m_yearday366_leap": m_yearday366_leap}
 def impl_mk(kw):
     from dateutil.relativedelta import relativedelta
     try:
-        return relativedelta(**kw)
+        return relativedelta(**R.real_kw(kw))
     except Exception as ex:
         return ("err", R.exc_code(ex))
 
@@ -95,7 +97,8 @@ def gen_case(r):
         # weekday jumps
         from dateutil._common import weekday
         n = r.choice([None, 0, 1, -1, 2, -2, 3, -3, 4, -4, 5, -5])
-        kw = {"weekday": weekday(r.randint(0, 6), n)}
+        # half of them the documented way: relativedelta.MO..SU and MO(n)
+        kw = {"weekday": (R.WArg if r.random() < 0.5 else weekday)(r.randint(0, 6), n)}
         if r.random() < 0.4:
             kw["day"] = r.choice([1, 31, 15])
         if r.random() < 0.3:
@@ -164,7 +167,7 @@ def exhaustive_cases(tier):
         d = start + _dt.timedelta(days=i)
         for w in range(7):
             for n in (None, -5, -4, -3, -2, -1, 0, 1, 2, 3, 4, 5):
-                out.append(({"weekday": weekday(w, n)}, d))
+                out.append(({"weekday": R.WArg(w, n) if i % 2 else weekday(w, n)}, d))
     # (d) yearday / nlyearday: every value 0..367 on a leap and a non-leap year
     for y in (2000, 2001, 1900, 2004):
         for n in range(0, 368):
@@ -242,15 +245,20 @@ def run_batch(cases, oracle, want_samples=0):
                 if w is None or w[1] is None or abs(w[1]) <= SPEC_N_LIMIT:
                     s["spec"] = len(reqs); reqs.append((R.S_ADD, ep + edt))
                     # the raw (un-normalised) keyword values through the total-based spec
+                    kwd = kw.get("weekday")
                     if ("yearday" not in kw and "nlyearday" not in kw
-                            and not R.is_int(kw.get("weekday")) ):
+                            and not (R.is_int(kwd) and not -7 <= kwd < 7)):
                         raw = dict(kw)
                         raw["days"] = raw.get("days", 0) + 7 * raw.pop("weeks", 0)
+                        # intended weekday: integer k means MO..SU[k] (negative index wraps), objects as given
                         rawp = (tuple(raw.get(a, 0) for a in R.REL) + (raw.get("leapdays", 0),),
                                 tuple(raw.get(a) for a in R.ABS),
-                                None if kw.get("weekday") is None else (kw["weekday"].weekday, kw["weekday"].n))
+                                None if kwd is None else ((kwd % 7, None) if R.is_int(kwd) else (kwd.weekday, kwd.n)))
                         er = R.enc_proj(rawp)
                         if R.fits(er):
+                            # guard of the raw-value theorem: wf_rd without the normalisation conjunct, on the INTENT
+                            s["rawwf"] = len(reqs)
+                            reqs.append((R.S_WF, R.enc_proj(((0,) * 7 + (rawp[0][7],), rawp[1], rawp[2]))))
                             s["raw"] = len(reqs); reqs.append((S_ADDRAW, er + edt))
                 if R.proj_is_int(pn) and R.fits(R.enc_proj(pn)):
                     s["neg"] = len(reqs); reqs.append((R.E_NEG, ep))
@@ -305,7 +313,7 @@ def run_batch(cases, oracle, want_samples=0):
                 diffs.append(({"kind": "dt + delta differs from the documented replace/shift/clip/duration/weekday result",
                                "input": inp(item, "add"), "delta": item["proj"], "impl": item["r_add"],
                                "spec": spec}, True))
-        if "raw" in s and wf and not reported:
+        if "raw" in s and res[s["rawwf"]] == [1] and not reported:
             raw = res_of_opt(R.dec_opt_dt(res[s["raw"]]))
             cnt["raw_spec_compared"] += 1
             if collapse(item["r_add"]) != raw:
@@ -315,8 +323,10 @@ def run_batch(cases, oracle, want_samples=0):
                                        "from the keyword values (totals, before any carry)",
                                "input": inp(item, "add"), "delta": item["proj"], "impl": item["r_add"],
                                "spec_from_keywords": raw}, True))
-        if "specneg" in s and wf and not reported:
+        specneg = None
+        if "specneg" in s:
             specneg = res_of_opt(R.dec_opt_dt(res[s["specneg"]]))
+        if "specneg" in s and wf and not reported:
             cnt["spec_compared"] += 1
             if collapse(item["r_sub"]) != specneg:
                 cnt["spec_diff"] += 1
@@ -393,7 +403,7 @@ def run_batch(cases, oracle, want_samples=0):
         if len(samples) < want_samples:
             samples.append({"kw": R.kw_json(kw), "dt": R.dt_json(dt), "delta": item["proj"],
                             "impl_add": item["r_add"], "model_add": m_add, "spec_add": spec,
-                            "impl_sub": item["r_sub"], "model_sub": m_rsub, "in_guard": wf})
+                            "impl_sub": item["r_sub"], "model_sub": m_rsub, "spec_sub": specneg, "in_guard": wf})
     return {"diffs": diffs, "hist": hist, "samples": samples, "cnt": cnt, "nontrivial": nontrivial}
 
 
@@ -445,7 +455,7 @@ def replay(path):
     o.close()
     print("input      relativedelta(%r)  operand %r  op %s" % (inp["kw"], dt, inp.get("op")))
     for smp in out["samples"]:
-        for k in ("delta", "impl_add", "model_add", "spec_add", "impl_sub", "model_sub", "in_guard"):
+        for k in ("delta", "impl_add", "model_add", "spec_add", "impl_sub", "model_sub", "spec_sub", "in_guard"):
             print("%-10s %r" % (k, smp[k]))
     if not out["samples"]:
         d = impl_mk(kw)
@@ -476,7 +486,7 @@ def main():
     else:
         props = C.compile_props(CID)
 
-    n_rand = 30000 if tier == "quick" else 3000000
+    n_rand = 30000 if tier == "quick" else 2500000
     procs = R.nprocs(tier)
     n_exh = len(exhaustive_cases(tier))
     jobs = [("corpus", tier, 0, 0)]
@@ -486,8 +496,12 @@ def main():
     jobs += [("rand", tier, lo, min(n_rand, lo + step)) for lo in range(0, n_rand, step)]
     have_oracle = os.path.exists(os.path.join(C.BIN, "oracle_rd"))
     total = {"diffs": [], "hist": {}, "samples": [], "cnt": {}, "nontrivial": set()}
+    cov_summary = {"available": False}
     if have_oracle:
-        for out in R.pool_map(worker, jobs, procs):
+        # one small shard in-process under coverage.py (anchored lines), the rest in the pool
+        first, cov_summary = R.measure_anchor_coverage(
+            lambda: [worker(("corpus", tier, 0, 0)), worker(("rand", tier, n_rand, n_rand + 1500))], ANCHOR_RANGES)
+        for out in first + R.pool_map(worker, jobs[1:], procs):
             total["diffs"] += out["diffs"]
             R.merge_hist(total["hist"], out["hist"])
             R.merge_hist(total["cnt"], out["cnt"])
@@ -523,6 +537,13 @@ def main():
         "spec_vs_impl_disagreements_in_guard": cnt.get("spec_diff", 0),
         "self_check_disagreements": cnt.get("self_diff", 0),
         "partial_theorems": [t for t in props["theorems"] if t.endswith("_partial")],
+        "refuted_theorems": [t for t in props["theorems"] if t.endswith("_refuted")],
+        "theorem_guards": {
+            "C03_add_dt_spec / C03_sub_spec / C03_add_fix_spec_raw": "wf_rd d: relative fields normalised (C03_mk_normalised: "
+            "true of every constructed delta), absolute year/month/day != 0, month in 1..12, weekday in 0..6; operand valid",
+            "C03_yearday_spec / C03_nlyearday_spec": "1 <= n <= 365, date operand; n = 366 on a leap year is "
+            "C03_yearday_366_leap_refuted = finding F-C03-yearday366",
+            "C03_month_shift_exact / C03_clip_never_spills": "|months| <= 11 (normalised), operand valid"},
         "only_differential_tested": ["aware operands (tzinfo carried untouched; the model has no tzinfo)",
                                       "float-valued fields (not generated here; see C16)",
                                       "deltas outside wf_rd (absolute year/month/day = 0, month outside 1..12, "
@@ -530,6 +551,10 @@ def main():
                                       "weekday n with |n| > %d: model vs implementation only (the counting spec "
                                       "is linear in |n|)" % SPEC_N_LIMIT],
         "known_findings_hit": verdict.known_hits,
+        "anchor_coverage_of_one_shard": dict(cov_summary, note="expected missing: 173 (ValueError for non-integer "
+                                             "years/months), 199 (warning for non-integer absolute values), 363 "
+                                             "(NotImplemented for non-date operands) -- floats and non-dates are "
+                                             "outside C03's quantifier (C16 covers floats)"),
     }
     C.write_evidence(CID, tier, t0, props, cov,
                      ["CPython datetime/date/timedelta/calendar.monthrange modelled in coq/rd/RdBase.v + "
@@ -537,10 +562,10 @@ def main():
                       "ydayidx table regenerated from /repo by harness/gen_rd_tables.py on this run"],
                      len(verdict.violations))
     print("C03 %s: obligations %d/%d, %d cases (%d exhaustive-stream), %d distinct non-trivial, model-diff %d, "
-          "spec-diff %d, self-diff %d, %.1fs" % (
+          "spec-diff %d (of which known findings %d), self-diff %d, %.1fs" % (
               tier, props["discharged"], props["obligations"], cnt.get("evaluations", 0), n_exh,
               len(total["nontrivial"]), cnt.get("model_diff", 0), cnt.get("spec_diff", 0),
-              cnt.get("self_diff", 0), time.time() - t0))
+              sum(verdict.known_hits.values()), cnt.get("self_diff", 0), time.time() - t0))
     return rc
 
 
